@@ -695,6 +695,31 @@ func permsOf(m *mMember) []string {
 	return m.perms
 }
 
+// doFlood: one member sends 45..60 broadcast chats in a row, so that the 50-entry history overflows.
+func (r *room) doFlood(sc *simClient) {
+	g, me := r.member(sc.id)
+	if me == nil || !has(me.perms, "message") {
+		return
+	}
+	n := rapid.IntRange(45, 60).Draw(r.t, "flood")
+	r.opf("%s floods %d broadcast chats", sc.id, n)
+	for i := 0; i < n; i++ {
+		r.chatN++
+		val := fmt.Sprintf("m%d", r.chatN)
+		id := fmt.Sprintf("id%d", r.chatN)
+		g.hist = append(g.hist, mHist{id, sc.id, me.user, "", val})
+		if len(g.hist) > 50 {
+			g.hist = g.hist[1:]
+		}
+		if err := r.s.send(sc, clientMessage{Type: "chat", Id: id, Source: sc.id, Username: sp(me.user), Value: val}); err != nil {
+			r.t.Fatalf("chat closed the connection: %v", err)
+		}
+	}
+	r.s.pump()
+	r.takeAll()
+	r.st.chatsBroadcast += n
+}
+
 // doModerate: op/unop/present/unpresent/shutup/unshutup/kick on a target.
 func (r *room) doModerate(sc *simClient) {
 	t := r.t
@@ -1283,6 +1308,8 @@ func (r *room) run(weights intentWeights, maxSteps int) {
 			r.doDisconnect(sc)
 		case "chat":
 			r.doChat(sc)
+		case "flood":
+			r.doFlood(sc)
 		case "moderate":
 			r.doModerate(sc)
 		case "lock":
